@@ -4,7 +4,7 @@
    Statement language (impl_lookup, spec_lookup, ...): Image/ViewEq.v.  Witness images: Image/Witnesses.v. *)
 From Coq Require Import List NArith ZArith Bool String.
 From Scalibr Require Import Lib.SortSearch Image.PathTree Image.PathTreeProofs Image.Fill Image.Overlay
-  Image.ImageCases Image.ViewEq Image.Witnesses Image.FillProofs Image.FoldProofs Image.Bounded Image.BoundedProofs.
+  Image.ImageCases Image.ViewEq Image.Witnesses Image.FillProofs Image.FoldProofs Image.Bounded Image.BoundedProofs Image.DomainP Image.ViewProofs.
 Import ListNotations.
 Open Scope Z_scope.
 
@@ -54,7 +54,11 @@ Print Assumptions pathtree_refines_map.
 (* Full statement (ViewEq.view_eq_overlay_on_D_statement): for every image and config in D, every view
    i and every path p, the implementation's view agrees with the OCI overlay on kind, permission bits,
    size, introducing layer, link destination, content and directory listing.
-   NOT proved in general.  Proved of it:
+   NOT proved on all of D.  PROVED for lookups on the sub-domain Dp (no links, explicit parent
+   entries) in every view before the final pruning and in every view but the last after it:
+   view_eq_overlay_on_Dp_unpruned, view_eq_overlay_on_Dp (below).  Still open on Dp: the last view
+   after pruning, content and listing equality (lookup_listing_consistent_on_D); open beyond Dp:
+   symbolic links, implicit parents (D_weak).  Also proved:
      - view_eq_overlay_on_D_bounded_partial: the statement (lookups on the paths a, b, a/a, a/b, a/a/a,
        a/c, c and listings of the root and of every directory among them) for EVERY image of the two
        small-scope families of Bounded.v (273 x 273 two-layer images with <= 2 members per layer;
@@ -72,6 +76,52 @@ Print Assumptions pathtree_refines_map.
    "view i (p) = newest member at p among layers <= i that no newer destructive member hides", (c) the
    matching characterisation of the spec fold (oldest first), (d) pruning with the default requirer
    only removes whiteout nodes (under final_prune_safe), and requirer_only_removes_nonrequired. *)
+
+(* ---- PROVED, all images of the domain Dp (DomainP.v), any number of layers and members ----
+   Dp: members are directories, regular files below the size limit and plain whiteouts (no links, no
+   opaque markers), relative names (any spelling the cleaning accepts); per layer: different paths,
+   every parent directory has its own entry earlier in the layer, nothing below a whiteout target or
+   file of the same layer; across layers: a path a layer deletes / turns into a file while older layers
+   have something beneath it is not made a directory again by a newer layer; any history.
+   newest_lookup im i p = the newest member at p among layers <= i unless a newer layer (<= i) has a
+   whiteout or file on a directory above p. *)
+
+(* (b) the implementation: every view before the final pruning *)
+Theorem view_lookup_newest : forall cfg im st,
+  Dp cfg im = true -> load_unpruned cfg im = Some st ->
+  forall i p, (i < List.length (init_slots im))%nat -> p <> [] ->
+    impl_lookup st i p = newest_lookup im i p.
+Proof. exact view_lookup_newest_lemma. Qed.
+Print Assumptions view_lookup_newest.
+
+(* (c) the OCI overlay of layers 0..i *)
+Theorem spec_lookup_newest : forall cfg im i p,
+  Dp cfg im = true -> spec_lookup cfg im i p = newest_lookup im i p.
+Proof. exact spec_lookup_newest_lemma. Qed.
+Print Assumptions spec_lookup_newest.
+
+(* (d) lookup equality (kind, mode bits, size, introducing layer) in every view before pruning ... *)
+Theorem view_eq_overlay_on_Dp_unpruned : forall cfg im st,
+  Dp cfg im = true -> load_unpruned cfg im = Some st ->
+  forall i p, (i < List.length (init_slots im))%nat -> p <> [] ->
+    impl_lookup st i p = spec_lookup cfg im i p.
+Proof. exact view_eq_overlay_on_Dp_unpruned_lemma. Qed.
+Print Assumptions view_eq_overlay_on_Dp_unpruned.
+
+(* ... and for FromV1Image itself, under every requirer, in every view except the last one (the final
+   pruning rewrites only the last view).  For the last view: NOT proved (final_prune_only_whiteouts_on_D,
+   requirer_only_removes_nonrequired are open). *)
+Theorem view_eq_overlay_on_Dp : forall cfg im st,
+  Dp cfg im = true -> load cfg im = Some st ->
+  forall i p, (S i < List.length (init_slots im))%nat -> p <> [] ->
+    impl_lookup st i p = spec_lookup cfg im i p.
+Proof. exact view_eq_overlay_on_Dp_lemma. Qed.
+Print Assumptions view_eq_overlay_on_Dp.
+
+(* non-vacuity: a three-layer image with replacements, a deleted file, a deleted directory tree, a
+   directory turned into a file, "./" spellings and special mode bits lies in Dp *)
+Example good_image_in_Dp : Dp cfg_default w_good_p = true.
+Proof. vm_compute. reflexivity. Qed.
 
 Theorem view_eq_overlay_on_D_bounded_partial :
   (forall l0 l1, In l0 old_layers -> In l1 new_layers ->
